@@ -190,7 +190,7 @@ FAMILY_HOOKS = {
     ("hv", "wire.go"): ["remote/hooks.go", "remote/buf.go"],
     ("hv", "peer.go"): ["actor/hooks.go", "remote/hooks.go", "remote/buf.go", "remote/remote17.go", "actor/remote17.go"],
     ("hv", "cluster.go"): ["cluster/hooks.go"],
-    ("hvs", "inbox.go"): ["actor/hooks.go", "actor/inbox_tp.go"], ("hvs", "procsched.go"): ["actor/hooks.go"],
+    ("hvs", "inbox.go"): ["actor/hooks.go", "actor/inbox_tp.go"], ("hvs", "procsched.go"): ["actor/hooks.go", "actor/actor.go"],
     ("hvs", "registry.go"): ["actor/hooks.go", "actor/registry_hooks.go"], ("hvs", "ring.go"): ["ringbuffer/ringconc.go"],
     ("hvs", "treerace.go"): ["actor/hooks.go", "actor/tree.go"],
 }
